@@ -107,13 +107,17 @@ fn bat_op<E: Exfiltrator>(batches: &mut Vec<Pending<E>>, op: i64, k: i64, conv: 
         }
     } else {
         note(33, 1000 + k, 0);
-        loop {
+        // a batch can hold at most MAX_SIGNUM * 5 records; more means next() never ends
+        for round in 0..700 {
             match batches.get_mut(k as usize).and_then(|b| b.next()) {
                 Some(v) => note(34, 1, conv(&v)),
                 None => {
                     note(34, 0, 0);
                     break;
                 }
+            }
+            if round == 699 {
+                note(95, k, 0);
             }
         }
     }
@@ -260,7 +264,7 @@ fn run_scenario(sc: Scenario) -> String {
         consumer = Some(Box::new(move || {
             let conv = |v: &libc::siginfo_t| { let (sg, m) = check_info(v); if m < 0 { -1 } else { sg as i64 * 1_000_000 + m } };
             script_sync(&mut signals, &script, &conv);
-            *fd.lock().unwrap() = Some(Box::new(move || signals.pending().map(|v| conv(&v)).collect()));
+            *fd.lock().unwrap() = Some(Box::new(move || signals.pending().take(700).map(|v| conv(&v)).collect()));
         }));
     } else {
         let mut signals = SignalsInfo::<SignalOnly>::new(sc.setup.iter()).unwrap();
@@ -272,7 +276,7 @@ fn run_scenario(sc: Scenario) -> String {
         consumer = Some(Box::new(move || {
             let conv = |v: &libc::c_int| *v as i64;
             script_sync(&mut signals, &script, &conv);
-            *fd.lock().unwrap() = Some(Box::new(move || signals.pending().map(|v| v as i64).collect()));
+            *fd.lock().unwrap() = Some(Box::new(move || signals.pending().take(700).map(|v| v as i64).collect()));
         }));
     }
     for &(k, a, b) in &sc.acts {
@@ -364,7 +368,7 @@ fn canonical(res: &sched::RunResult, layout: &[[usize; 6]; 2], y: &[i64], draine
             24 => {
                 c[2] = 3;
             }
-            20 | 30..=37 => {
+            20 | 30..=37 | 95 => {
                 c[2] = l.loc;
             }
             _ => continue,
@@ -409,7 +413,7 @@ fn main() {
             let pid = libc::fork();
             if pid == 0 {
                 libc::close(fds[0]);
-                libc::alarm(60);
+                libc::alarm(30);
                 let r = std::panic::catch_unwind(|| run_scenario(decode(&v)));
                 let s = match r { Ok(s) => s, Err(_) => "!panic".to_string() };
                 let mut f = std::fs::File::from_raw_fd(fds[1]);
